@@ -52,7 +52,8 @@ def run(eng, R):
     R.rule("U-fix", "fix_parameter / release_parameter act on the multi fitter and on every member that has the parameter, with the value the multi fitter recorded", 4)
 
     ini = get_func(p, MF, "_init_nexus")
-    src = eng.csrc(ini)   # canonical form; placeholders `_i` / `_f` (loop over the members), `_n` (a name list), `_p` (a parameter node)
+    ini = type(ini)(ini.name, ini.cls, ini.module, common.read_through(ini.node), ini.kind, ini.prop)   # (a local naming a member's graph - `_g = _fit_i._nexus` - is read as that path)
+    src = common.Src(" ".join(ast.unparse(ini.node).split()))   # canonical form; placeholders `_i` / `_f` (loop over the members), `_n` (a name list), `_p` (a parameter node)
     # ---------------------------------------------------------------- P-sum
     with R.guard("Psum"):
         ok = src.like("for _i, _f in enumerate(self._fits): self._nexus.add(Alias(_f._nexus.get('cost'), 'cost%s' % _i), False)")
